@@ -37,50 +37,12 @@ Proof.
   intros n Hn. rewrite <- E in Hn. apply filter_In in Hn as [_ Hn]. exact Hn.
 Qed.
 
-(* ---------- through a format ---------- *)
-Lemma node_gid_norm ps : node_gid (norm_props ps) = option_map eol_norm (node_gid ps).
-Proof.
-  unfold node_gid. rewrite norm_props_vmap, pget_vmap. destruct (pget P_GraphID ps) as [[x|z|b]|]; reflexivity.
-Qed.
-
-Lemma has_gid_through f gid g : (forall n, In n (g_nodes g) -> has_gid gid n = true) ->
-  forall n, In n (g_nodes (through f g)) -> has_gid (gid_through f gid) n = true.
-Proof.
-  destruct f; simpl; [|auto]. intros H n Hn. apply in_map_iff in Hn as (n0 & <- & H0). specialize (H _ H0).
-  unfold has_gid in *. simpl. rewrite node_gid_norm. destruct (node_gid (snd n0)) as [x|]; [|discriminate].
-  simpl. apply str_eqb_eq in H. subst. apply str_eqb_refl.
-Qed.
-
-Lemma truthy_norm o : truthy (option_map norm_val o) = truthy o.
-Proof.
-  destruct o as [[x|z|b]|]; try reflexivity. simpl. destruct x as [|c r]; [reflexivity|].
-  destruct (eol_norm (c :: r)) eqn:E; [exfalso; revert E; apply eol_norm_nonnil; discriminate|reflexivity].
-Qed.
-
-Lemma ids_ok_through f g : graph_ids_ok g = true -> graph_ids_ok (through f g) = true.
-Proof.
-  destruct f; simpl; [|auto]. unfold graph_ids_ok. rewrite !forallb_forall. intros H n Hn.
-  simpl in Hn. apply in_map_iff in Hn as (n0 & <- & H0). simpl.
-  rewrite norm_props_vmap, pget_vmap, truthy_norm. apply H, H0.
-Qed.
-
-Lemma nonempty_through f g : g_nodes g <> [] -> g_nodes (through f g) <> [].
-Proof. destruct f; simpl; [|auto]. destruct (g_nodes g); [congruence|discriminate]. Qed.
-
-Lemma shape_through f g : graph_shape g = true -> graph_shape (through f g) = true.
-Proof.
-  destruct f; simpl; [|auto]. intro H. destruct (graph_shape_parts g H) as [ND CL].
-  assert (K : map fst (g_nodes (norm_graph g)) = map fst (g_nodes g)) by (simpl; rewrite map_map; reflexivity).
-  apply graph_shape_intro; [rewrite K; exact ND|].
-  intros e He. simpl in He. apply in_map_iff in He as ([[u v] ps] & <- & H0). rewrite K. apply (CL _ H0).
-Qed.
-
 Lemma nonempty_b g : g_nodes g <> [] -> nonempty g = true.
 Proof. unfold nonempty. destruct (g_nodes g); [congruence|reflexivity]. Qed.
 
 (* ---------- serialize, then read ---------- *)
 Lemma ser_read f g : fmt_ok f g = true ->
-  exists t, serialize f g = Some t /\ read_any t = Some (through f g).
+  exists t, serialize f g = Some t /\ read_any t = Some g.
 Proof.
   destruct f; simpl; intro H.
   - destruct (graphml_roundtrip g H) as (d & A & B). exists (TGraphML d). rewrite A. split; [reflexivity|exact B].
@@ -113,95 +75,48 @@ Qed.
 Theorem roundtrip_restamp f ep s gid gid' g :
   is_direct ep = false -> store_wf s = true -> extract s gid = Some g ->
   fmt_ok f g = true -> graph_ids_ok g = true ->
-  exists t s',
+  exists t s' g',
     serialize_graph s gid f = Some (Some t)
     /\ import_via ep s t gid' = (s', ROk gid')
-    /\ extract s' gid' = Some (copy_of s gid' (through f g))
-    /\ content (copy_of s gid' (through f g)) = content (stamp gid' (through f g)).
+    /\ extract s' gid' = Some g'
+    /\ g' = copy_of s gid' g
+    /\ content g' = content (restamp gid' g).
 Proof.
   intros D W E OK IDS.
   destruct (ser_read f g OK) as (t & SE & RD).
   destruct (extract_facts _ _ _ E) as [NE _].
-  destruct (graph_shape_parts _ (shape_through f g (fmt_ok_shape f g OK))) as [ND CL].
-  destruct (add_graph_spec s gid' (through f g) (store_wf_bounded s W) ND CL (ids_ok_through f g IDS)
-              (nonempty_through f g NE)) as (s' & AG & EX).
-  exists t, s'. split; [unfold serialize_graph; rewrite E, SE; reflexivity|]. split; [|split].
+  destruct (graph_shape_parts _ (fmt_ok_shape f g OK)) as [ND CL].
+  destruct (add_graph_spec s gid' g (store_wf_bounded s W) ND CL IDS NE) as (s' & AG & EX).
+  exists t, s', (copy_of s gid' g). split; [unfold serialize_graph; rewrite E, SE; reflexivity|]. split; [|split; [|split]].
   - assert (I : import_string s t gid' = (s', ROk gid')).
-    { unfold import_string. rewrite RD, (nonempty_b _ (nonempty_through f g NE)). exact AG. }
+    { unfold import_string. rewrite RD, (nonempty_b _ NE). exact AG. }
     destruct ep; try discriminate; exact I.
   - exact EX.
+  - reflexivity.
   - apply content_copy; assumption.
 Qed.
 
 Theorem roundtrip_direct f ep s gid g :
   is_direct ep = true -> store_wf s = true -> extract s gid = Some g -> fmt_ok f g = true ->
-  forall gid', exists t s',
-    serialize_graph s gid f = Some (Some t)
-    /\ import_via ep s t gid' = (s', ROk (gid_through f gid))
-    /\ extract s' (gid_through f gid) = Some (copy_direct s (through f g))
-    /\ content (copy_direct s (through f g)) = content (through f g).
-Proof.
-  intros D W E OK gid'.
-  destruct (ser_read f g OK) as (t & SE & RD).
-  destruct (extract_facts _ _ _ E) as [NE HG].
-  destruct (graph_shape_parts _ (shape_through f g (fmt_ok_shape f g OK))) as [ND CL].
-  pose proof (has_gid_through f gid g HG) as HG'.
-  destruct (add_graph_direct_spec s (gid_through f gid) (through f g) (store_wf_bounded s W) ND CL HG'
-              (nonempty_through f g NE)) as (s' & AG & EX).
-  exists t, s'. split; [unfold serialize_graph; rewrite E, SE; reflexivity|]. split; [|split].
-  - assert (I : import_string_direct s t = (s', ROk (gid_through f gid))).
-    { unfold import_string_direct.
-      rewrite (get_graph_id_spec t _ _ RD (nonempty_through f g NE) HG'), RD, (nonempty_b _ (nonempty_through f g NE)).
-      exact AG. }
-    destruct ep; try discriminate; exact I.
-  - exact EX.
-  - apply content_relabelled; assumption.
-Qed.
-
-(* CR-free graphs pass through unchanged *)
-Lemma through_id f g : fmt_ok f g = true -> fmt_no_cr f g = true -> through f g = g.
-Proof. destruct f; simpl; [apply norm_graph_id|reflexivity]. Qed.
-
-Lemma gid_through_id f gid g : fmt_ok f g = true -> fmt_no_cr f g = true -> g_nodes g <> [] ->
-  (forall n, In n (g_nodes g) -> has_gid gid n = true) -> gid_through f gid = gid.
-Proof.
-  destruct f; simpl; [|reflexivity]. intros W C NE HG.
-  destruct (g_nodes g) as [|n0 r] eqn:E; [congruence|].
-  pose proof (has_gid_inv gid n0 (HG n0 (or_introl eq_refl))) as P. apply pget_In in P.
-  destruct (graph_wf_legal g W) as [LN _]. specialize (LN n0). rewrite E in LN. specialize (LN (or_introl eq_refl) _ P).
-  unfold graph_no_cr in C. rewrite andb_true_iff, !forallb_forall in C. destruct C as [CN _].
-  specialize (CN n0). rewrite E in CN. specialize (CN (or_introl eq_refl)). unfold props_no_cr in CN.
-  rewrite forallb_forall in CN. specialize (CN _ P). simpl in LN, CN. apply eol_norm_id; assumption.
-Qed.
-
-Theorem roundtrip_restamp_exact f ep s gid gid' g :
-  is_direct ep = false -> store_wf s = true -> extract s gid = Some g ->
-  fmt_ok f g = true -> fmt_no_cr f g = true -> graph_ids_ok g = true ->
-  exists t s' g',
-    serialize_graph s gid f = Some (Some t)
-    /\ import_via ep s t gid' = (s', ROk gid')
-    /\ extract s' gid' = Some g'
-    /\ content g' = content (restamp gid' g).
-Proof.
-  intros D W E OK C IDS.
-  destruct (roundtrip_restamp f ep s gid gid' g D W E OK IDS) as (t & s' & A1 & A2 & A3 & A4).
-  rewrite (through_id f g OK C) in *. exists t, s', (copy_of s gid' g). repeat split; assumption.
-Qed.
-
-Theorem roundtrip_direct_exact f ep s gid g :
-  is_direct ep = true -> store_wf s = true -> extract s gid = Some g ->
-  fmt_ok f g = true -> fmt_no_cr f g = true ->
   forall gid', exists t s' g',
     serialize_graph s gid f = Some (Some t)
     /\ import_via ep s t gid' = (s', ROk gid)
     /\ extract s' gid = Some g'
+    /\ g' = copy_direct s g
     /\ content g' = content g.
 Proof.
-  intros D W E OK C gid'.
-  destruct (roundtrip_direct f ep s gid g D W E OK gid') as (t & s' & A1 & A2 & A3 & A4).
+  intros D W E OK gid'.
+  destruct (ser_read f g OK) as (t & SE & RD).
   destruct (extract_facts _ _ _ E) as [NE HG].
-  rewrite (through_id f g OK C) in *. rewrite (gid_through_id f gid g OK C NE HG) in *.
-  exists t, s', (copy_direct s g). repeat split; assumption.
+  destruct (graph_shape_parts _ (fmt_ok_shape f g OK)) as [ND CL].
+  destruct (add_graph_direct_spec s gid g (store_wf_bounded s W) ND CL HG NE) as (s' & AG & EX).
+  exists t, s', (copy_direct s g). split; [unfold serialize_graph; rewrite E, SE; reflexivity|]. split; [|split; [|split]].
+  - assert (I : import_string_direct s t = (s', ROk gid)).
+    { unfold import_string_direct. rewrite (get_graph_id_spec t _ _ RD NE HG), RD, (nonempty_b _ NE). exact AG. }
+    destruct ep; try discriminate; exact I.
+  - exact EX.
+  - reflexivity.
+  - apply content_relabelled; assumption.
 Qed.
 
 (* ---------- the imported copy is again a well-formed graph ---------- *)
@@ -298,29 +213,6 @@ Proof.
   - intros e He. destruct (RE e He) as (e0 & H0 & E). rewrite <- E. apply PE, H0.
 Qed.
 
-Lemma graph_no_cr_iff g : graph_no_cr g = true <->
-  (forall n, In n (g_nodes g) -> props_no_cr (snd n) = true) /\ (forall e, In e (g_edges g) -> props_no_cr (snd e) = true).
-Proof. unfold graph_no_cr. rewrite andb_true_iff, !forallb_forall. tauto. Qed.
-
-Lemma copy_of_no_cr s gid g : no_cr gid = true -> graph_no_cr g = true -> graph_no_cr (copy_of s gid g) = true.
-Proof.
-  intros L W. apply graph_no_cr_iff in W as (PN & PE). apply graph_no_cr_iff. unfold copy_of.
-  destruct (relabelled_props (s_next s) g) as [RN RE]. split.
-  - intros n Hn. simpl in Hn. apply in_map_iff in Hn as (n1 & <- & H1).
-    destruct (RN n1 H1) as (n0 & H0 & E). simpl. rewrite <- E.
-    specialize (PN _ H0). unfold props_no_cr in *. rewrite forallb_forall in *.
-    intros kv Hkv. apply pset_In in Hkv as [->|H]; [exact L|apply PN, H].
-  - intros e He. destruct (RE e He) as (e0 & H0 & E). rewrite <- E. apply PE, H0.
-Qed.
-
-Lemma copy_direct_no_cr s g : graph_no_cr g = true -> graph_no_cr (copy_direct s g) = true.
-Proof.
-  intros W. apply graph_no_cr_iff in W as (PN & PE). apply graph_no_cr_iff. unfold copy_direct.
-  destruct (relabelled_props (s_next s) g) as [RN RE]. split.
-  - intros n Hn. destruct (RN n Hn) as (n0 & H0 & E). rewrite <- E. apply PN, H0.
-  - intros e He. destruct (RE e He) as (e0 & H0 & E). rewrite <- E. apply PE, H0.
-Qed.
-
 Lemma graph_json_ok_iff g : graph_json_ok g = true <->
   (forall n, In n (g_nodes g) -> ~ In P_id (map fst (snd n)))
   /\ (forall e, In e (g_edges g) -> ~ In P_source (map fst (snd e)) /\ ~ In P_target (map fst (snd e))).
@@ -353,12 +245,12 @@ Qed.
 
 (* the graph id a caller passes has to be usable in the format *)
 Definition gid_ok (f : fmt) (gid : str) : bool :=
-  match f with GraphMLFmt => xml_legal gid && no_cr gid | JsonFmt => true end.
+  match f with GraphMLFmt => xml_legal gid | JsonFmt => true end.
 
 Lemma copy_of_fmt_ok f s gid g : gid_ok f gid = true -> fmt_ok f g = true -> fmt_ok f (copy_of s gid g) = true.
 Proof.
   destruct f; simpl.
-  - rewrite andb_true_iff. intros [L _]. apply copy_of_wf, L.
+  - intro L. apply copy_of_wf, L.
   - intros _. rewrite !andb_true_iff. intros [A B]. split; [|apply copy_of_json_ok, B].
     unfold copy_of. apply stamp_shape, relabelled_shape, A.
 Qed.
@@ -367,40 +259,22 @@ Proof.
   destruct f; simpl; [apply copy_direct_wf|].
   rewrite !andb_true_iff. intros [A B]. split; [apply relabelled_shape, A|apply copy_direct_json_ok, B].
 Qed.
-Lemma copy_of_fmt_no_cr f s gid g : gid_ok f gid = true -> fmt_no_cr f g = true -> fmt_no_cr f (copy_of s gid g) = true.
-Proof. destruct f; simpl; [|auto]. rewrite andb_true_iff. intros [_ C]. apply copy_of_no_cr, C. Qed.
-Lemma copy_direct_fmt_no_cr f s g : fmt_no_cr f g = true -> fmt_no_cr f (copy_direct s g) = true.
-Proof. destruct f; simpl; [apply copy_direct_no_cr|auto]. Qed.
-
-Lemma through_fmt_ok f g : fmt_ok f g = true -> fmt_ok f (through f g) = true.
-Proof. destruct f; simpl; [apply norm_graph_wf|auto]. Qed.
-Lemma through_fmt_no_cr f g : fmt_no_cr f (through f g) = true.
-Proof. destruct f; simpl; [apply norm_graph_no_cr|reflexivity]. Qed.
-
 (* ---------- serializing the copy again ---------- *)
-(* the second text denotes exactly the imported copy: nothing more is lost, whatever the first pass did *)
+(* the second text denotes exactly the imported copy *)
 Theorem reserialize_restamp f s gid' g :
   fmt_ok f g = true -> gid_ok f gid' = true ->
-  let copy := copy_of s gid' (through f g) in
+  let copy := copy_of s gid' g in
   exists t2, serialize f copy = Some t2 /\ text_graph t2 = Some copy.
 Proof.
-  intros OK GO copy.
-  assert (OK' : fmt_ok f copy = true) by (apply copy_of_fmt_ok; [exact GO|apply through_fmt_ok, OK]).
-  destruct (ser_read f copy OK') as (t2 & A & B). exists t2. split; [exact A|].
-  unfold text_graph. rewrite B. f_equal. apply through_id; [exact OK'|].
-  apply copy_of_fmt_no_cr; [exact GO|apply through_fmt_no_cr].
+  intros OK GO copy. apply (ser_read f copy). apply copy_of_fmt_ok; assumption.
 Qed.
 
 Theorem reserialize_direct f s g :
   fmt_ok f g = true ->
-  let copy := copy_direct s (through f g) in
+  let copy := copy_direct s g in
   exists t2, serialize f copy = Some t2 /\ text_graph t2 = Some copy.
 Proof.
-  intros OK copy.
-  assert (OK' : fmt_ok f copy = true) by (apply copy_direct_fmt_ok, through_fmt_ok, OK).
-  destruct (ser_read f copy OK') as (t2 & A & B). exists t2. split; [exact A|].
-  unfold text_graph. rewrite B. f_equal. apply through_id; [exact OK'|].
-  apply copy_direct_fmt_no_cr, through_fmt_no_cr.
+  intros OK copy. apply (ser_read f copy). apply copy_direct_fmt_ok, OK.
 Qed.
 
 (* ---------- validation after import ---------- *)
@@ -437,81 +311,26 @@ Proof.
   - intros e He. destruct (RE e He) as (e0 & H0 & E). rewrite <- E. apply VE, H0.
 Qed.
 
-(* ---------- instances named in Properties/C01.v ---------- *)
-Theorem roundtrip_json_restamp ep s gid gid' g :
-  is_direct ep = false -> store_wf s = true -> extract s gid = Some g ->
-  graph_shape g = true -> graph_json_ok g = true -> graph_ids_ok g = true ->
-  exists t s' g', serialize_graph s gid JsonFmt = Some (Some t) /\ import_via ep s t gid' = (s', ROk gid')
-                  /\ extract s' gid' = Some g' /\ content g' = content (restamp gid' g).
-Proof.
-  intros D W E SH J I. apply (roundtrip_restamp_exact JsonFmt ep s gid gid' g D W E); [|reflexivity|exact I].
-  simpl. rewrite SH, J. reflexivity.
-Qed.
-
-Theorem roundtrip_json_direct ep s gid g :
-  is_direct ep = true -> store_wf s = true -> extract s gid = Some g ->
-  graph_shape g = true -> graph_json_ok g = true ->
-  forall gid', exists t s' g', serialize_graph s gid JsonFmt = Some (Some t) /\ import_via ep s t gid' = (s', ROk gid)
-                  /\ extract s' gid = Some g' /\ content g' = content g.
-Proof.
-  intros D W E SH J. apply (roundtrip_direct_exact JsonFmt ep s gid g D W E); [|reflexivity].
-  simpl. rewrite SH, J. reflexivity.
-Qed.
-
-Theorem roundtrip_graphml_restamp_partial ep s gid gid' g :
-  is_direct ep = false -> store_wf s = true -> extract s gid = Some g ->
-  graph_wf g = true -> graph_no_cr g = true -> graph_ids_ok g = true ->
-  exists t s' g', serialize_graph s gid GraphMLFmt = Some (Some t) /\ import_via ep s t gid' = (s', ROk gid')
-                  /\ extract s' gid' = Some g' /\ content g' = content (restamp gid' g).
-Proof. intros D W E WF C I. exact (roundtrip_restamp_exact GraphMLFmt ep s gid gid' g D W E WF C I). Qed.
-
-Theorem roundtrip_graphml_direct_partial ep s gid g :
-  is_direct ep = true -> store_wf s = true -> extract s gid = Some g ->
-  graph_wf g = true -> graph_no_cr g = true ->
-  forall gid', exists t s' g', serialize_graph s gid GraphMLFmt = Some (Some t) /\ import_via ep s t gid' = (s', ROk gid)
-                  /\ extract s' gid = Some g' /\ content g' = content g.
-Proof. intros D W E WF C. exact (roundtrip_direct_exact GraphMLFmt ep s gid g D W E WF C). Qed.
-
-(* FULL STATEMENT (false for GraphML): roundtrip_graphml_restamp_partial without graph_no_cr *)
-Definition cr_store : store := fst (add_graph_direct empty_store (S"g") cr_witness).
-Theorem roundtrip_graphml_store_cr_refuted :
-  exists s gid gid' g,
-    store_wf s = true /\ extract s gid = Some g /\ graph_wf g = true /\ graph_ids_ok g = true
-    /\ forall t s' g', serialize_graph s gid GraphMLFmt = Some (Some t) -> import_via EString s t gid' = (s', ROk gid') ->
-                       extract s' gid' = Some g' -> content g' <> content (restamp gid' g).
-Proof.
-  exists cr_store, (S"g"), (S"h"), cr_witness. split; [vm_compute; reflexivity|]. split; [vm_compute; reflexivity|].
-  split; [vm_compute; reflexivity|]. split; [vm_compute; reflexivity|].
-  intros t s' g' A B C.
-  assert (A' : serialize_graph cr_store (S"g") GraphMLFmt = Some (Some t)) by exact A.
-  vm_compute in A'. inversion A'; subst t. clear A A'.
-  vm_compute in B. inversion B; subst s'. clear B.
-  vm_compute in C. inversion C; subst g'. clear C.
-  vm_compute. discriminate.
-Qed.
-
+(* ---------- validation of the imported copy ---------- *)
 Theorem validates_after_import_restamp jsonok f ep s gid gid' g :
   (forall v, jsonok P_GraphID v = true) ->
   is_direct ep = false -> store_wf s = true -> extract s gid = Some g ->
-  fmt_ok f g = true -> fmt_no_cr f g = true -> graph_ids_ok g = true -> validate jsonok g = true ->
+  fmt_ok f g = true -> graph_ids_ok g = true -> validate jsonok g = true ->
   exists t s' g', serialize_graph s gid f = Some (Some t) /\ import_via ep s t gid' = (s', ROk gid')
                   /\ extract s' gid' = Some g' /\ validate jsonok g' = true.
 Proof.
-  intros JG D W E OK C I V.
-  destruct (roundtrip_restamp f ep s gid gid' g D W E OK I) as (t & s' & A1 & A2 & A3 & _).
-  rewrite (through_id f g OK C) in *. exists t, s', (copy_of s gid' g). repeat split; try assumption.
-  apply validate_copy_of; assumption.
+  intros JG D W E OK I V.
+  destruct (roundtrip_restamp f ep s gid gid' g D W E OK I) as (t & s' & g' & A1 & A2 & A3 & -> & _).
+  exists t, s', (copy_of s gid' g). repeat split; try assumption. apply validate_copy_of; assumption.
 Qed.
 
 Theorem validates_after_import_direct jsonok f ep s gid g :
   is_direct ep = true -> store_wf s = true -> extract s gid = Some g ->
-  fmt_ok f g = true -> fmt_no_cr f g = true -> validate jsonok g = true ->
+  fmt_ok f g = true -> validate jsonok g = true ->
   forall gid', exists t s' g', serialize_graph s gid f = Some (Some t) /\ import_via ep s t gid' = (s', ROk gid)
                   /\ extract s' gid = Some g' /\ validate jsonok g' = true.
 Proof.
-  intros D W E OK C V gid'.
-  destruct (roundtrip_direct f ep s gid g D W E OK gid') as (t & s' & A1 & A2 & A3 & _).
-  destruct (extract_facts _ _ _ E) as [NE HG].
-  rewrite (through_id f g OK C) in *. rewrite (gid_through_id f gid g OK C NE HG) in *.
+  intros D W E OK V gid'.
+  destruct (roundtrip_direct f ep s gid g D W E OK gid') as (t & s' & g' & A1 & A2 & A3 & -> & _).
   exists t, s', (copy_direct s g). repeat split; try assumption. apply validate_copy_direct; assumption.
 Qed.
